@@ -689,8 +689,22 @@ class InspectFunction(object):
         body_sig = dds_hash(class_body_lines)
         # All the sub-dependencies are handled with method introspections
 
+        # The statements of the class body that are not methods (class attributes) are evaluated when the
+        # class is created: the module variables that they name are dependencies of the class.
+        class_vdeps = ExternalVarsVisitor(mod, gctx, set())
+        for elem in node.body:
+            if not isinstance(elem, ast.FunctionDef):
+                class_vdeps.visit(elem)
+        class_ext_deps = sorted(class_vdeps.vars.values(), key=lambda ed: ed.local_path)
+
         return_sig = dds_hash_commut(
-            [(_hash_key_body_sig, body_sig)] + _fis_to_siglist(method_fis)
+            [(_hash_key_body_sig, body_sig)]
+            + _fis_to_siglist(method_fis)
+            + [
+                (HK(f"ext_variable_{ed.local_path}"), ed.sig)
+                for ed in class_ext_deps
+                if ed.sig is not None
+            ]
         )
         assert return_sig is not None
 
@@ -698,8 +712,8 @@ class InspectFunction(object):
             arg_input=arg_ctx,
             fun_body_sig=body_sig,
             fun_return_sig=return_sig,
-            # The dependencies are for now all in the function bodies
-            external_deps=[],
+            # The dependencies of the methods are in the function bodies
+            external_deps=class_ext_deps,
             parsed_body=method_fis,
             store_path=None,  # No store path can be associated by default to a class
             fun_path=fun_path,
